@@ -1,6 +1,8 @@
 /-
   Lemmas/StrRun.lean — operation HISTORIES: any finite sequence of the modelled operations, each
-  with arbitrary arguments, continuing after panics and allocation errors (`catch_unwind`).
+  with arbitrary arguments, continuing after panics and allocation errors (`catch_unwind`);
+  the `List Char` SPECIFICATION of every operation (what `std::string::String` does, with the
+  documented range form of `split_off`) and the refinement relation between the two.
 -/
 import BumpProof.Lemmas.StrOps
 import BumpProof.Lemmas.StrRetain
@@ -22,47 +24,260 @@ inductive Op where
   | replaceRange (sb eb : Bound) (t : List Char)
   | extendFromWithin (sb eb : Bound)
   | splitOff (sb eb : Bound) (continueWithOther : Bool)
+  | reserve (n : Nat)
+  | reserveExact (n : Nat)
 
-def stateOf {α : Type} : Res α → Option State
-  | .ok _ s => some s
+/-- what an operation returns (`σ` = the representation of a string) -/
+inductive Ret (σ : Type) where
+  | unit
+  | char (c : Char)
+  | optChar (o : Option Char)
+  | chars (l : List Char)
+  | other (o : σ)          -- `split_off`: the string that is NOT continued with
+  deriving DecidableEq
+
+/-- outcome of one operation: the string afterwards and the returned value -/
+inductive Out (σ : Type) where
+  | ok (s : σ) (r : Ret σ)
+  | err (s : σ)
+  | panic (s : σ)
+  | fault
+  deriving DecidableEq
+
+def Out.next {σ : Type} : Out σ → Option σ
+  | .ok s _ => some s
   | .err s => some s
   | .panic s => some s
   | .fault => none
 
-/-- the string after one operation, whatever its outcome (`none` = undefined behaviour reached);
-    `fixed`: fixed-capacity string; `f`: order of the checks in `split_off` (see `c09aFixed`) -/
-def step (fixed f : Bool) (s : State) : Op → Option State
-  | .push c => stateOf (push fixed s c)
-  | .pushStr t => stateOf (pushStr fixed s (encode t))
-  | .insert i c => stateOf (insert fixed s i c)
-  | .insertStr i t => stateOf (insertStr fixed s i (encode t))
-  | .remove i => stateOf (remove s i)
-  | .pop => stateOf (pop s)
-  | .truncate n => stateOf (truncate s n)
-  | .clear => stateOf (clear s)
-  | .retain o => stateOf (retain s o)
-  | .drain sb eb k => stateOf (drain s sb eb k)
-  | .replaceRange sb eb t => stateOf (replaceRange fixed s sb eb (encode t))
-  | .extendFromWithin sb eb => stateOf (extendFromWithin fixed s sb eb)
+def ofRes {α : Type} (f : α → Ret State) : Res α → Out State
+  | .ok v s => .ok s (f v)
+  | .err s => .err s
+  | .panic s => .panic s
+  | .fault => .fault
+
+/-- one operation on the byte model (`al`: where the memory comes from; `f`: order of the checks in
+    `split_off`, see `c09aFixed`) -/
+def stepOut (al : Alloc) (f : Bool) (s : State) : Op → Out State
+  | .push c => ofRes (fun _ => .unit) (push al s c)
+  | .pushStr t => ofRes (fun _ => .unit) (pushStr al s (encode t))
+  | .insert i c => ofRes (fun _ => .unit) (insert al s i c)
+  | .insertStr i t => ofRes (fun _ => .unit) (insertStr al s i (encode t))
+  | .remove i => ofRes .char (remove s i)
+  | .pop => ofRes .optChar (pop s)
+  | .truncate n => ofRes (fun _ => .unit) (truncate s n)
+  | .clear => ofRes (fun _ => .unit) (clear s)
+  | .retain o => ofRes (fun _ => .unit) (retain s o)
+  | .drain sb eb k => ofRes .chars (drain s sb eb k)
+  | .replaceRange sb eb t => ofRes (fun _ => .unit) (replaceRange al s sb eb (encode t))
+  | .extendFromWithin sb eb => ofRes (fun _ => .unit) (extendFromWithin al s sb eb)
   | .splitOff sb eb other =>
     match splitOff f s sb eb with
-    | .ok o s' => some (if other then o else s')
-    | .err s' => some s'
-    | .panic s' => some s'
-    | .fault => none
+    | .ok o s' => if other then .ok o (.other s') else .ok s' (.other o)
+    | .err s' => .err s'
+    | .panic s' => .panic s'
+    | .fault => .fault
+  | .reserve n => ofRes (fun _ => .unit) (reserveOp al s n)
+  | .reserveExact n => ofRes (fun _ => .unit) (reserveExactOp al s n)
 
-def run (fixed f : Bool) (s : State) : List Op → Option State
+/-- the string after one operation, whatever its outcome (`none` = undefined behaviour reached) -/
+def step (al : Alloc) (f : Bool) (s : State) (op : Op) : Option State := (stepOut al f s op).next
+
+def run (f : Bool) (s : State) : List (Alloc × Op) → Option State
   | [] => some s
-  | op :: ops =>
-    match step fixed f s op with
-    | some s' => run fixed f s' ops
+  | (al, op) :: ops =>
+    match step al f s op with
+    | some s' => run f s' ops
     | none => none
 
-theorem stateOf_allWF {α : Type} {r : Res α} (h : AllWF r) : ∃ s', stateOf r = some s' ∧ WF s' := by
-  cases r with
-  | ok v s => exact ⟨s, rfl, h⟩
-  | err s => exact ⟨s, rfl, h⟩
-  | panic s => exact ⟨s, rfl, h⟩
-  | fault => exact absurd h (by simp [AllWF])
+/-! ## the `List Char` specification -/
+
+/-- split `cs` at byte index `i`; `none` iff `i` is out of range or inside a character -/
+def splitAtByte : List Char → Nat → Option (List Char × List Char)
+  | [], i => if i = 0 then some ([], []) else none
+  | c :: cs, i =>
+    if i = 0 then some ([], c :: cs)
+    else if c.utf8Size ≤ i then (splitAtByte cs (i - c.utf8Size)).map (fun p => (c :: p.1, p.2))
+    else none
+
+/-- split `cs` by a byte range; `none` iff the range does not resolve or an end is not a character position -/
+def splitRange (cs : List Char) (sb eb : Bound) : Option (List Char × List Char × List Char) :=
+  match sliceRange sb eb (encode cs).length with
+  | none => none
+  | some (i, j) =>
+    match splitAtByte cs i with
+    | none => none
+    | some (c1, r) =>
+      match splitAtByte r (j - i) with
+      | none => none
+      | some (c2, c3) => some (c1, c2, c3)
+
+/-- a growing step: a fixed string with less than `need` spare bytes fails and is unchanged -/
+def specGrow (al : Alloc) (spare need : Nat) (cs out : List Char) : Out (List Char) :=
+  if al.isFixed = true ∧ spare < need then .err cs else .ok out .unit
+
+/-- the specification of one operation on the characters `cs` (byte indices as in `String`'s API;
+    `spare` = capacity − length, which only a FIXED string looks at) -/
+def specStep (al : Alloc) (spare : Nat) (cs : List Char) : Op → Out (List Char)
+  | .push c => specGrow al spare c.utf8Size cs (cs ++ [c])
+  | .pushStr t => specGrow al spare (encode t).length cs (cs ++ t)
+  | .insert i c =>
+    match splitAtByte cs i with
+    | none => .panic cs
+    | some (a, b) => specGrow al spare c.utf8Size cs (a ++ [c] ++ b)
+  | .insertStr i t =>
+    match splitAtByte cs i with
+    | none => .panic cs
+    | some (a, b) => specGrow al spare (encode t).length cs (a ++ t ++ b)
+  | .remove i =>
+    match splitAtByte cs i with
+    | some (a, c :: b) => .ok (a ++ b) (.char c)
+    | _ => .panic cs
+  | .pop => .ok cs.dropLast (.optChar cs.getLast?)
+  | .truncate n =>
+    if n ≤ (encode cs).length then
+      match splitAtByte cs n with
+      | none => .panic cs
+      | some (a, _) => .ok a .unit
+    else .ok cs .unit
+  | .clear => .ok [] .unit
+  | .retain o => if (retainSpec cs o).2 then .panic (retainSpec cs o).1 else .ok (retainSpec cs o).1 .unit
+  | .drain sb eb k =>
+    match splitRange cs sb eb with
+    | none => .panic cs
+    | some (a, b, c) => .ok (a ++ c) (.chars (b.take k))
+  | .replaceRange sb eb t =>
+    match splitRange cs sb eb with
+    | none => .panic cs
+    | some (a, b, c) => specGrow al spare ((encode t).length - (encode b).length) cs (a ++ t ++ c)
+  | .extendFromWithin sb eb =>
+    match splitRange cs sb eb with
+    | none => .panic cs
+    | some (a, b, c) => specGrow al spare (encode b).length cs (a ++ b ++ c ++ b)
+  | .splitOff sb eb other =>
+    match splitRange cs sb eb with
+    | none => .panic cs
+    | some (a, b, c) => if other then .ok b (.other (a ++ c)) else .ok (a ++ c) (.other b)
+  | .reserve n => specGrow al spare n cs cs
+  | .reserveExact n => specGrow al spare n cs cs
+
+/-! ## refinement relation -/
+
+def RetRel : Ret (List Char) → Ret State → Prop
+  | .unit, .unit => True
+  | .char a, .char b => a = b
+  | .optChar a, .optChar b => a = b
+  | .chars a, .chars b => a = b
+  | .other cs, .other o => Holds o cs
+  | _, _ => False
+
+/-- same kind of outcome, equal returned values, and the string holds the specified characters
+    (after `ok`, after an allocation error and after a PANIC alike); never the fault -/
+def OutRel : Out (List Char) → Out State → Prop
+  | .ok cs r, .ok s r' => Holds s cs ∧ RetRel r r'
+  | .err cs, .err s => Holds s cs
+  | .panic cs, .panic s => Holds s cs
+  | _, _ => False
+
+/-- lock-step simulation of a history: at every step the outcomes are related and the run
+    continues from related strings -/
+def Simulates (f : Bool) : State → List Char → List (Alloc × Op) → Prop
+  | _, _, [] => True
+  | s, cs, (al, op) :: ops =>
+    OutRel (specStep al (s.cap - s.len) cs op) (stepOut al f s op) ∧
+    match (stepOut al f s op).next, (specStep al (s.cap - s.len) cs op).next with
+    | some s', some cs' => Simulates f s' cs' ops
+    | _, _ => False
+
+/-! ## lemmas about the splitting functions -/
+
+theorem splitAtByte_of (a b : List Char) : splitAtByte (a ++ b) (encode a).length = some (a, b) := by
+  induction a with
+  | nil => cases b <;> simp [splitAtByte]
+  | cons x a ih =>
+    have hp := encodeChar_length_pos x
+    have hn := encodeChar_length x
+    simp only [List.cons_append, encode_cons, List.length_append, splitAtByte]
+    rw [if_neg (by omega), if_pos (by omega)]
+    have : (encodeChar x).length + (encode a).length - x.utf8Size = (encode a).length := by omega
+    rw [this, ih]; rfl
+
+theorem splitAtByte_some {cs : List Char} {i : Nat} {a b : List Char} (h : splitAtByte cs i = some (a, b)) :
+    cs = a ++ b ∧ (encode a).length = i := by
+  induction cs generalizing i a b with
+  | nil =>
+    simp only [splitAtByte] at h
+    split at h
+    · simp only [Option.some.injEq, Prod.mk.injEq] at h; obtain ⟨rfl, rfl⟩ := h; simp [*]
+    · simp at h
+  | cons c cs ih =>
+    simp only [splitAtByte] at h
+    split at h
+    · simp only [Option.some.injEq, Prod.mk.injEq] at h; obtain ⟨rfl, rfl⟩ := h; simp [*]
+    · split at h
+      · cases hr : splitAtByte cs (i - c.utf8Size) with
+        | none => rw [hr] at h; simp at h
+        | some p =>
+          obtain ⟨a', b'⟩ := p
+          rw [hr] at h
+          simp only [Option.map_some, Option.some.injEq, Prod.mk.injEq] at h
+          obtain ⟨rfl, rfl⟩ := h
+          obtain ⟨h1, h2⟩ := ih hr
+          refine ⟨by rw [h1]; rfl, ?_⟩
+          simp only [encode_cons, List.length_append, encodeChar_length]; omega
+      · simp at h
+
+theorem splitAtByte_none {cs : List Char} {i : Nat} (h : splitAtByte cs i = none) : ¬ CharPos cs i := by
+  rintro ⟨a, b, rfl, rfl⟩
+  rw [splitAtByte_of] at h; simp at h
+
+theorem splitRange_some {cs : List Char} {sb eb : Bound} {c1 c2 c3 : List Char}
+    (h : splitRange cs sb eb = some (c1, c2, c3)) :
+    ∃ i j, sliceRange sb eb (encode cs).length = some (i, j) ∧ cs = c1 ++ c2 ++ c3 ∧
+      (encode c1).length = i ∧ (encode (c1 ++ c2)).length = j := by
+  unfold splitRange at h
+  cases hr : sliceRange sb eb (encode cs).length with
+  | none => rw [hr] at h; simp at h
+  | some p =>
+    obtain ⟨i, j⟩ := p
+    rw [hr] at h
+    simp only at h
+    cases h1 : splitAtByte cs i with
+    | none => rw [h1] at h; simp at h
+    | some q =>
+      obtain ⟨a, r⟩ := q
+      rw [h1] at h
+      simp only at h
+      cases h2 : splitAtByte r (j - i) with
+      | none => rw [h2] at h; simp at h
+      | some q2 =>
+        obtain ⟨b, c⟩ := q2
+        rw [h2] at h
+        simp only [Option.some.injEq, Prod.mk.injEq] at h
+        obtain ⟨rfl, rfl, rfl⟩ := h
+        obtain ⟨e1, l1⟩ := splitAtByte_some h1
+        obtain ⟨e2, l2⟩ := splitAtByte_some h2
+        have := (sliceRange_some hr).1
+        exact ⟨i, j, rfl, by rw [e1, e2, List.append_assoc], l1, by rw [encode_append, List.length_append]; omega⟩
+
+theorem splitRange_none {cs : List Char} {sb eb : Bound} (h : splitRange cs sb eb = none) :
+    RangeBad cs sb eb (encode cs).length := by
+  rcases rangeBad_or_split cs sb eb (encode cs).length with hb | ⟨i, j, c1, c2, c3, hr, he, h1, h2⟩
+  · exact hb
+  · exfalso
+    unfold splitRange at h
+    rw [hr] at h
+    simp only at h
+    have e1 : splitAtByte cs i = some (c1, c2 ++ c3) := by
+      rw [he, List.append_assoc, ← h1]; exact splitAtByte_of c1 (c2 ++ c3)
+    rw [e1] at h
+    simp only at h
+    have hji : j - i = (encode c2).length := by
+      rw [← h2, ← h1, encode_append, List.length_append]; omega
+    rw [hji, splitAtByte_of] at h
+    simp at h
+
+theorem stateOf_next {α : Type} (f : α → Ret State) (r : Res α) : (ofRes f r).next = r.state? := by
+  cases r <;> rfl
 
 end Str
